@@ -31,13 +31,36 @@ type Term struct {
 	S Sort
 	E string
 	C any
+	// B: optional known bounds of a symbolic Int (inclusive); used to skip overflow queries
+	B *[2]int64
 }
+
+func boundsOf(t *Term) (lo, hi int64, ok bool) {
+	if t.S != SInt {
+		return 0, 0, false
+	}
+	if t.IsConc() {
+		v := t.C.(int64)
+		return v, v, true
+	}
+	if t.B != nil {
+		return t.B[0], t.B[1], true
+	}
+	return 0, 0, false
+}
+
+func withBounds(t *Term, lo, hi int64) *Term {
+	t.B = &[2]int64{lo, hi}
+	return t
+}
+
+const safeBound = int64(1) << 61
 
 func (t *Term) IsConc() bool { return t.C != nil }
 
 var (
-	tTrue  = &Term{SBool, "true", true}
-	tFalse = &Term{SBool, "false", false}
+	tTrue  = &Term{S: SBool, E: "true", C: true}
+	tFalse = &Term{S: SBool, E: "false", C: false}
 )
 
 func mkBool(b bool) *Term {
@@ -57,7 +80,7 @@ func intLit(i int64) string {
 	return "(- " + strconv.FormatInt(-i, 10) + ")"
 }
 
-func mkInt(i int64) *Term { return &Term{SInt, intLit(i), i} }
+func mkInt(i int64) *Term { return &Term{S: SInt, E: intLit(i), C: i} }
 
 // mkBig builds an Int literal that may not fit in int64 (uint64 constants); C stays nil unless it fits.
 func mkBig(b *big.Int) *Term {
@@ -70,7 +93,7 @@ func mkBig(b *big.Int) *Term {
 	return &Term{S: SInt, E: b.String()}
 }
 
-func mkStr(s string) *Term { return &Term{SStr, strconv.Quote(s), s} }
+func mkStr(s string) *Term { return &Term{S: SStr, E: strconv.Quote(s), C: s} }
 
 func app(s Sort, op string, args ...*Term) *Term {
 	var b strings.Builder
@@ -133,7 +156,13 @@ func tIte(c, a, b *Term) *Term {
 	if a.IsConc() && b.IsConc() && a.C == b.C {
 		return a
 	}
-	return app(a.S, "ite", c, a, b)
+	r := app(a.S, "ite", c, a, b)
+	if al, ah, ok := boundsOf(a); ok {
+		if bl, bh, ok := boundsOf(b); ok {
+			withBounds(r, min(al, bl), max(ah, bh))
+		}
+	}
+	return r
 }
 func tEq(a, b *Term) *Term {
 	if a.IsConc() && b.IsConc() && a.S != SFloat {
@@ -180,7 +209,13 @@ func tAdd(a, b *Term) *Term {
 	if a.IsConc() && a.C.(int64) == 0 {
 		return b
 	}
-	return app(SInt, "+", a, b)
+	r := app(SInt, "+", a, b)
+	if al, ah, ok := boundsOf(a); ok {
+		if bl, bh, ok := boundsOf(b); ok && al > -safeBound && ah < safeBound && bl > -safeBound && bh < safeBound {
+			withBounds(r, al+bl, ah+bh)
+		}
+	}
+	return r
 }
 func tSub(a, b *Term) *Term {
 	if a.IsConc() && b.IsConc() {
@@ -194,7 +229,13 @@ func tSub(a, b *Term) *Term {
 	if b.IsConc() && b.C.(int64) == 0 {
 		return a
 	}
-	return app(SInt, "-", a, b)
+	r := app(SInt, "-", a, b)
+	if al, ah, ok := boundsOf(a); ok {
+		if bl, bh, ok := boundsOf(b); ok && al > -safeBound && ah < safeBound && bl > -safeBound && bh < safeBound {
+			withBounds(r, al-bh, ah-bl)
+		}
+	}
+	return r
 }
 
 // ---------------------------------------------------------------- solver
